@@ -45,7 +45,7 @@ func (c *Ctx) setupClassInvariants() {
 	classInvField = map[string]bool{}
 	tn := c.typeObj("postscript", "scanner")
 	T := tn.Type().(*types.Named)
-	key := func(role string) string { return types.TypeString(T, nil) + "." + c.fld(role) }
+	key := func(role string) string { return c.fldKey(role) }
 	pos, used, buf := key("scanner.pos"), key("scanner.used"), key("scanner.buf")
 	ci := &classInv{id: "scanner-buffer", T: T, fields: []string{pos, used, buf}, isLen: map[string]bool{buf: true}}
 	ci.rels = []classInvRel{
